@@ -233,7 +233,7 @@ func (o *Obligation) query(vc *VC, model map[string]*Term) string {
 
 // relevantQuery: only the assumptions in the cone of influence of goal and path condition (sharing a non-heap
 // symbol, transitively). Dropping assumptions is sound for unsat answers.
-func (o *Obligation) relevantQuery(vc *VC) (string, int) {
+func (o *Obligation) relevantQuery(vc *VC, ground bool) (string, int) {
 	facts := vc.facts[:o.NFacts]
 	cone := map[string]bool{}
 	for s := range vc.symbolsOf(o.Goal) {
@@ -274,7 +274,7 @@ func (o *Obligation) relevantQuery(vc *VC) (string, int) {
 	}
 	n := len(as)
 	as = append(as, o.Reach)
-	return smtQuery(as, o.Goal, false, nil), n
+	return smtQueryG(as, o.Goal, false, nil, ground), n
 }
 
 // symbolsOf: free non-array variables and uninterpreted function symbols of t (memoised per term)
@@ -328,6 +328,7 @@ func (vc *VC) discharge(dir string, timeout int, thorough bool) {
 		file string
 	}
 	var jobs []job
+	termMu.Lock()
 	for i, o := range vc.obls {
 		if o.Status != "" {
 			continue
@@ -335,10 +336,12 @@ func (vc *VC) discharge(dir string, timeout int, thorough bool) {
 		file := filepath.Join(dir, fmt.Sprintf("%s_%d.smt2", sanitize(vc.prog.shortName(vc.top)), i))
 		q := o.query(vc, nil)
 		if o.Expect == "unsat" {
-			rq, n := o.relevantQuery(vc)
+			// stage files: ground relaxation (.g), cone of influence (.r), everything (plain)
+			gq, _ := o.relevantQuery(vc, true)
+			os.WriteFile(file+".g", []byte("; "+o.Name+" (ground relaxation: quantified assumptions and frame axioms dropped)\n"+gq), 0o644)
+			rq, n := o.relevantQuery(vc, false)
 			if n < o.NFacts {
-				os.WriteFile(file+".full", []byte("; "+o.Name+" (all assumptions)\n"+q), 0o644)
-				q = rq
+				os.WriteFile(file+".r", []byte("; "+o.Name+" (assumptions in the cone of influence)\n"+rq), 0o644)
 			}
 		}
 		if err := os.WriteFile(file, []byte("; "+o.Name+"\n"+q), 0o644); err != nil {
@@ -347,6 +350,7 @@ func (vc *VC) discharge(dir string, timeout int, thorough bool) {
 		}
 		jobs = append(jobs, job{o, file})
 	}
+	termMu.Unlock()
 	var wg sync.WaitGroup
 	sem := globalSem
 	for _, j := range jobs {
@@ -362,6 +366,9 @@ func (vc *VC) discharge(dir string, timeout int, thorough bool) {
 }
 
 var globalSem = make(chan struct{}, 15)
+
+// term construction (hash-consing tables) is not concurrent: query files are generated under this lock
+var termMu sync.Mutex
 
 func solveOne(o *Obligation, file string, timeout int, thorough bool) {
 	var log []string
@@ -397,53 +404,76 @@ func solveOne(o *Obligation, file string, timeout int, thorough bool) {
 		o.Output = strings.Join(log, "\n")
 		return
 	}
-	agree := 0
-	if _, err := os.Stat(file + ".full"); err == nil {
-		// first the query restricted to the cone of influence; any other answer than unsat falls back to the full query
-		v, _, secs := runSolver(solvers[0], file, timeout)
+	// staged: a ground relaxation, then the cone of influence, then everything on all solvers at once.
+	// An unsat answer of a relaxation is an unsat answer of the full query.
+	stage := func(f, label string, t int) bool {
+		if _, err := os.Stat(f); err != nil {
+			return false
+		}
+		v, _, secs := runSolver(solvers[0], f, t)
 		o.Time += secs
-		log = append(log, fmt.Sprintf("%s (relevant assumptions only): %s (%.2fs)", solvers[0].name, v, secs))
-		if v == "unsat" && !thorough {
-			o.Status, o.Solver = "discharged", solvers[0].name
-			o.Output = strings.Join(log, "\n")
-			return
-		}
+		log = append(log, fmt.Sprintf("%s (%s): %s (%.2fs)", solvers[0].name, label, v, secs))
 		if v == "unsat" {
-			agree++
-			o.Solver = solvers[0].name
+			o.Solver = solvers[0].name + "/" + label
+			if thorough {
+				v2, _, secs2 := runSolver(solvers[2], f, t)
+				o.Time += secs2
+				log = append(log, fmt.Sprintf("%s (%s): %s (%.2fs)", solvers[2].name, label, v2, secs2))
+				if v2 != "unsat" {
+					v3, _, secs3 := runSolver(solvers[1], f, t)
+					o.Time += secs3
+					log = append(log, fmt.Sprintf("%s (%s): %s (%.2fs)", solvers[1].name, label, v3, secs3))
+					if v3 == "sat" {
+						return false
+					}
+				}
+			}
+			return true
 		}
-		file = file + ".full"
+		return false
 	}
-	for si, s := range solvers {
-		v, out, secs := runSolver(s, file, timeout)
-		o.Time += secs
-		log = append(log, fmt.Sprintf("%s: %s (%.2fs)", s.name, v, secs))
-		if v == "error" {
-			log = append(log, firstLines(out, 6))
+	if stage(file+".g", "ground", 3) || stage(file+".r", "relevant", timeout) {
+		o.Status = "discharged"
+		o.Output = strings.Join(log, "\n")
+		return
+	}
+	type res struct {
+		name, v, out string
+		secs       float64
+	}
+	ch := make(chan res, len(solvers))
+	for _, s := range solvers {
+		go func(s solverSpec) {
+			v, out, secs := runSolver(s, file, timeout)
+			ch <- res{s.name, v, out, secs}
+		}(s)
+	}
+	unsat, sat := 0, 0
+	for range solvers {
+		r := <-ch
+		o.Time += r.secs
+		log = append(log, fmt.Sprintf("%s: %s (%.2fs)", r.name, r.v, r.secs))
+		if r.v == "error" {
+			log = append(log, firstLines(r.out, 6))
 		}
-		if v == "unsat" {
+		if r.v == "unsat" {
+			unsat++
 			if o.Solver == "" {
-				o.Solver = s.name
+				o.Solver = r.name
 			}
-			agree++
-			if !thorough || agree >= 2 || si == len(solvers)-1 {
-				o.Status = "discharged"
-				break
-			}
-			continue
 		}
-		if v == "sat" {
-			o.Status = "failed"
-			o.Solver = s.name
-			break
+		if r.v == "sat" {
+			sat++
+			o.Solver = r.name
 		}
 	}
-	if o.Status == "" {
-		if agree > 0 {
-			o.Status = "discharged"
-		} else {
-			o.Status = "unknown"
-		}
+	switch {
+	case sat > 0:
+		o.Status = "failed"
+	case unsat > 0:
+		o.Status = "discharged"
+	default:
+		o.Status = "unknown"
 	}
 	o.Output = strings.Join(log, "\n")
 }
